@@ -13,7 +13,7 @@
    bookkeeping is abstracted (stub transports: the connect methods answer with a plan) and only exercised by the pmsim monitors. *)
 From Coq Require Import List NArith ZArith Bool Lia.
 From PM Require Import Base.Bytes Base.Outcome Base.Dec Gen.GenConsts Gen.GenCbuf Model.ScriptAst Model.Enqueue Model.Script Model.Device
-  Model.DevHarness Proofs.DeviceProofs Proofs.DeviceStmt Proofs.DeviceInv Proofs.DeviceRun Proofs.DeviceTimer Proofs.DeviceLocal Proofs.DeviceThms.
+  Model.DevHarness Proofs.DeviceProofs Proofs.DeviceStmt Proofs.DeviceStmtG Proofs.DeviceInv Proofs.DeviceInvG Proofs.DeviceRun Proofs.DeviceRunG Proofs.DeviceTimer Proofs.DeviceLocal Proofs.DeviceThms.
 Import ListNotations.
 Local Open Scope Z_scope.
 
@@ -76,8 +76,10 @@ Proof.
 Qed.
 Print Assumptions C07_submatch.
 
-(* a device that does not read cannot overflow dev->to: a send queues its string only when the buffer is empty (inv_to), so the
-   assert(dropped == ...) of _process_send depends on the configuration only (fmt_ok: the formatted string fits 64 KiB) *)
+(* with a transport that has no preprocess method (coprocess, serial, the stub transports of R-DEV) dev->to only ever holds the string of the
+   send statement in progress (inv_to): a send queues its string only when the buffer is empty, so dev->to never wraps (fmt_ok: a formatted
+   string fits 64 KiB).  For tcp transports this is FALSE (telnet option replies are queued behind the script's back): see C07_telnet_replies
+   and finding F38 *)
 Theorem C07_output_buffer : forall (rmatch : text -> text -> option pmatch) (compress : list text -> text) (sc : bool) (h h' : hstate) (ops : list hop) (outs : list hout) k d p,
   HInv compress h -> Forall valid_op ops -> run rmatch compress sc h ops = Ok (h', outs) ->
   nth_error (h_devs h') k = Some (d, p) ->
@@ -88,6 +90,37 @@ Proof.
 Qed.
 Print Assumptions C07_output_buffer.
 
+
+(* TCP transports (finding F38).  The telnet filter of device_tcp.c (dev->preprocess) rewrites the bytes just read and queues option replies
+   in dev->to behind the script's back: `pi_pre pin = Some (kept, reply)` for ARBITRARY kept / reply (the filter itself is C09's).  The
+   invariant without any condition on dev->to (DInvG; DInv_G: it follows from DInv) is preserved by one device's share of dev_post_poll
+   for every descriptor answer and every preprocess result, and the pass never crashes.  Before the repair of F38 this was false: a peer
+   that stops reading and floods IAC DO <opt> fills dev->to with replies and the next `send` statement hit
+   assert(dropped == strlen(str) - written) in _process_send (reproduced on the unmodified daemon, corpus/C07).  The proof uses the source
+   fact GenConsts.SEND_OVERRUN_ASSERT = false (regenerated from device.c on every run): if the assert comes back the proof breaks. *)
+Theorem C07_telnet_replies : forall (rmatch : text -> text -> option pmatch) (compress : list text -> text) (sc : bool) now d store tmo pin,
+  DInvG compress d -> tmo_pos tmo -> 0 <= dv_retry_count d ->
+  match post_poll_one rmatch compress sc now d store tmo pin with
+  | Ok (d', store', tmo', evs) => step_postG compress now d store tmo d' store' tmo' evs /\ timer_ok now d' tmo'
+  | Hang _ => True
+  | _ => False
+  end.
+Proof.
+  exact post_poll_one_inv_pre.
+Qed.
+Print Assumptions C07_telnet_replies.
+
+(* one statement never aborts WHATEVER dev->to holds (no inv_to hypothesis): a send on a full buffer overwrites the oldest unsent bytes *)
+Theorem C07_statement_total_any_output_buffer : forall (rmatch : text -> text -> option pmatch) (compress : list text -> text) (sc : bool) now sd a store,
+  wf_action compress (sd_plugs sd) a ->
+  match process_stmt rmatch compress sc now sd a store with
+  | Ok ((fin, sd', a', store', evs), t) => stmt_postG compress sd a store fin sd' a' store' evs t
+  | _ => False
+  end.
+Proof.
+  exact process_stmt_propsG.
+Qed.
+Print Assumptions C07_statement_total_any_output_buffer.
 
 (* non-vacuity: a device with a login and an `on` script, run through a history with a time-out *)
 Definition ex_rmatch : text -> text -> option pmatch := fun _ _ => None.
@@ -119,3 +152,17 @@ Proof.
     + eexists. split; [vm_compute; reflexivity|cbn [length]; unfold MAX_DEV_BUF; lia].
     + eexists. split; [vm_compute; reflexivity|cbn [length]; unfold MAX_DEV_BUF; lia].
 Qed.
+
+(* non-vacuity of C07_telnet_replies: a connected device reads "ok" while the telnet filter queues a 3-byte option reply; the login's expect
+   matches and the next statement - a send - starts on a dev->to that is NOT empty (inv_to is false here): the pass returns Ok and the
+   script's bytes are queued behind the reply.  (The 64 KiB overrun itself is exercised on the C: corpus/C07, props/C07.py.) *)
+Definition ex_rmatch_ok : text -> text -> option pmatch := fun re s => if text_eqb re (bslit "ok") then Some [Some (O, 2%nat)] else None.
+Definition ex_tel_dev : device :=
+  mkDevice (mkSdev (bslit "d0") [mkPlug (bslit "p1") (Some (bslit "n1"))] [] [255; 252; 1]%N None false)
+           [(PM_LOG_IN, [Expect (bslit "ok"); Send (bslit "login\n"); Expect (bslit "ok")])] 5000000 0 DEV_CONNECTED false true
+           [create_action [Expect (bslit "ok"); Send (bslit "login\n"); Expect (bslit "ok")] PM_LOG_IN None 0 false false false None] 0 1 0 1 0 MIN_DEV_BUF.
+Definition ex_tel_pin : passin := mkPassin false false false false true (Some (bslit "ok")) None true [] (Some (bslit "ok", [255; 251; 3]%N)).
+Example C07_telnet_replies_example :
+  exists d' st' t' evs, post_poll_one ex_rmatch_ok ex_compress false 1000000 ex_tel_dev [] None ex_tel_pin = Ok (d', st', t', evs) /\
+    sd_to (dv d') = [255; 252; 1; 255; 251; 3]%N ++ bslit "login\n".
+Proof. vm_compute. eexists _, _, _, _. repeat split. Qed.
